@@ -1,7 +1,7 @@
 (* TicketProofs.v — the TicketMachine (LoopSem.tmachine) seen as a finite map (line, id) -> flag,
    and its behaviour on every sequence of operations (property C10, worker c10). *)
 From SL Require Import Tac.
-From SL Require Import LoopSem.
+From SL Require Import LoopSem LegacyTicket.
 From RecordUpdate Require Import RecordUpdate.
 Import ListNotations.
 
@@ -472,4 +472,18 @@ Proof.
   rewrite check_ticket_flag, take_ticket_id.
   destruct (tflag (run_ops ops) line' (tm_counter (run_ops ops))) as [b|] eqn:F; [|reflexivity].
   apply run_ops_wf in F. lia.
+Qed.
+
+(* ------------------------------------------------------------------ keyed by name (before 7e1f12d) vs keyed by class *)
+Lemma legacy_wait_then_dispatch_spec name ops waited dispatched :
+  legacy_wait_then_dispatch name (run_ops ops) waited dispatched =
+  Some (name waited =? name dispatched)%nat.
+Proof.
+  unfold legacy_wait_then_dispatch, legacy_register_wait, legacy_check_processed, legacy_mark_processed.
+  destruct (take_ticket (run_ops ops) (name waited)) as [id tm1] eqn:T.
+  assert (Hid : id = tm_counter (run_ops ops)) by (inversion T; reflexivity).
+  assert (Htm : tm1 = snd (take_ticket (run_ops ops) (name waited))) by (rewrite T; reflexivity).
+  rewrite check_ticket_flag, tflag_mark. subst tm1.
+  rewrite tflag_take by apply run_ops_wf. subst id. rewrite !Nat.eqb_refl. cbn [andb option_map].
+  destruct (name waited =? name dispatched)%nat; reflexivity.
 Qed.
